@@ -4,6 +4,8 @@ import UberjobModel.Lemmas.KahnSound
 import UberjobModel.Lemmas.GraphWF
 import UberjobModel.Lemmas.EngineExamples
 import UberjobModel.Lemmas.EngineQ
+import UberjobModel.Lemmas.Greedy
+import UberjobModel.Gen.Greedy
 /-!
 # C07 — run always terminates and leaves nothing running; cycles are rejected up front
 
@@ -197,3 +199,63 @@ example : (runQ? chainQ ⟨2, some 0⟩ (initQ chainQ)
      .put (.release 0 1) none]).isNone = true := by decide
 
 end Uberjob.Engine
+
+/-! ## the default scheduler's priorities (`_execution/greedy.py`): computed for every DAG, one per node -/
+namespace Uberjob.Greedy
+
+/-- `Greedy.search` / `Greedy.order` / `Greedy.priority` are the shape of the CURRENT `greedy.pred_search`, of the end of
+    `greedy.get_priority_mapping` and of the default branch of `scheduler.create_queue` (regenerated on every check) -/
+theorem C07_greedy_source_shape : Gen.Greedy.predSearchShape = true ∧ Gen.Greedy.priorityMappingShape = true ∧
+    Gen.Greedy.defaultQueueShape = true := by decide
+
+/-- **`get_priority_mapping` gets there**: for every DAG (any size, any mix of argument and plain-dependency edges) and
+    whatever order the condensation puts the pseudo-sinks in, `pred_search` ends - within `|sinks| + n + |E|` iterations of its
+    loop - having yielded every node of the graph exactly once. -/
+theorem C07_priorities_computed (g : Gr) (hg : g.WF) (sinks : List Nat) (hs1 : ∀ x ∈ sinks, x < g.n)
+    (hs2 : ∀ u, u < g.n → g.isSink u = true → u ∈ sinks) :
+    ∃ o, order g sinks = some o ∧ o.Nodup ∧ (∀ v, v ∈ o ↔ v < g.n) ∧ o.length = g.n := by
+  obtain ⟨o, ho, hnd, hmem⟩ := order_total g hg sinks hs1 hs2
+  refine ⟨o, ho, hnd, hmem, ?_⟩
+  have hp : o.Perm (List.range g.n) :=
+    (List.perm_ext_iff_of_nodup hnd List.nodup_range).mpr (fun v => by rw [hmem v, List.mem_range])
+  rw [hp.length_eq, List.length_range]
+
+/-- … so every node has a priority in `[0, n)`: none falls back to `-1`, the priority of the DONE sentinel, and … -/
+theorem C07_priority_range (g : Gr) (hg : g.WF) (sinks : List Nat) (hs1 : ∀ x ∈ sinks, x < g.n)
+    (hs2 : ∀ u, u < g.n → g.isSink u = true → u ∈ sinks) (v : Nat) (hv : v < g.n) :
+    0 ≤ priority g sinks v ∧ priority g sinks v < g.n := by
+  obtain ⟨o, ho, _, hmem, hlen⟩ := C07_priorities_computed g hg sinks hs1 hs2
+  have hvo := (hmem v).mpr hv
+  have := List.idxOf_lt_length_of_mem hvo
+  simp only [priority, ho, hvo, if_true]
+  omega
+
+/-- … no two nodes share one. -/
+theorem C07_priority_injective (g : Gr) (hg : g.WF) (sinks : List Nat) (hs1 : ∀ x ∈ sinks, x < g.n)
+    (hs2 : ∀ u, u < g.n → g.isSink u = true → u ∈ sinks) (u v : Nat) (hu : u < g.n) (hv : v < g.n)
+    (h : priority g sinks u = priority g sinks v) : u = v := by
+  obtain ⟨o, ho, _, hmem, _⟩ := C07_priorities_computed g hg sinks hs1 hs2
+  have huo := (hmem u).mpr hu
+  have hvo := (hmem v).mpr hv
+  simp only [priority, ho, huo, hvo, if_true] at h
+  have h' : o.idxOf u = o.idxOf v := by omega
+  have h1 := List.getElem_idxOf (List.idxOf_lt_length_of_mem huo)
+  have h2 := List.getElem_idxOf (List.idxOf_lt_length_of_mem hvo)
+  rw [← h1, ← h2]
+  simp only [h']
+
+/-- a diamond with a plain-dependency tail: 0 → 1, 0 → 2, {1, 2} → 3 by arguments, 3 → 4 by `add_dependency` (so 3 and 4 are
+    both pseudo-sinks) -/
+def exGr : Gr := ⟨5, fun v => if v = 1 then [0] else if v = 2 then [0] else if v = 3 then [1, 2] else if v = 4 then [3] else [],
+  fun u v => (u, v) ∈ [(0, 1), (0, 2), (1, 3), (2, 3)]⟩
+
+example : exGr.WF := by
+  refine ⟨by decide, ?_⟩
+  intro u v h
+  simp only [exGr, List.mem_cons, Prod.mk.injEq, List.mem_nil_iff, or_false, decide_eq_true_eq] at h
+  rcases h with ⟨rfl, rfl⟩ | ⟨rfl, rfl⟩ | ⟨rfl, rfl⟩ | ⟨rfl, rfl⟩ <;> decide
+example : order exGr [3, 4] = some [3, 2, 0, 1, 4] := by decide
+example : exGr.isSink 3 = true ∧ exGr.isSink 4 = true ∧ exGr.isSink 1 = false := by decide
+
+end Uberjob.Greedy
+
